@@ -1527,7 +1527,7 @@ type ZONEMD struct {
 
 func (rr *ZONEMD) String() string {
 	return rr.Hdr.String() +
-		strconv.Itoa(int(rr.Serial)) +
+		strconv.FormatInt(int64(rr.Serial), 10) +
 		" " + strconv.Itoa(int(rr.Scheme)) +
 		" " + strconv.Itoa(int(rr.Hash)) +
 		" " + rr.Digest
